@@ -38,3 +38,47 @@ Example C06_nonvacuous :
   positioned [x01; x02; x03] [BWrite 1 [x0a]; BWrite 3 [x0b; x0c]; BResize 2; BResize 6; BWrite 4 []].
 Proof. exact positioned_example. Qed.
 Print Assumptions C06_nonvacuous.
+
+(* ---- the storage layer over the back-ends (models Storage.v, proofs StorageSim.v; see Props/C04.v) ---- *)
+Module StorageLevel.
+From Agdb Require Import Records RecordsProofs RecordsTableProofs Storage StorageSpec
+  StorageLayout StorageWp StorageOps StorageOps2 StorageRefine StorageReopen StorageOptimize StorageProofs StorageSim.
+Open Scope N_scope.
+
+(* each back-end, modelled literally, is a lawful byte store; Storage<D> is parametric in a lawful store;
+   hence all three give the canonical observations for EVERY storage operation list *)
+Theorem C06_instances_lawful :
+  lawful bytes mem_raw ops_mem rd_mem /\ lawful cdata file_raw ops_file rd_file /\
+  lawful (cdata * bytes) mapped_raw ops_file rd_mapped.
+Proof. exact (conj mem_lawful (conj file_lawful mapped_lawful)). Qed.
+Print Assumptions C06_instances_lawful.
+
+(* Storage<D> is parametric in a lawful byte store: related states give equal observations for every
+   operation list, as long as the canonical run stays inside the contract *)
+Theorem C06_storage_parametric :
+  forall (T : Type) (opsT : store_ops T) (opsC : store_ops cdata) (rd : T -> cdata -> Prop),
+    canon opsC -> lawful T opsT opsC rd ->
+    forall l s1 s2, srel T rd s1 s2 -> ~ In ObFault (st_run cdata opsC s2 l) ->
+      st_run T opsT s1 l = st_run cdata opsC s2 l.
+Proof. exact sim_run. Qed.
+Print Assumptions C06_storage_parametric.
+
+(* hence, from an empty store, the three back-ends produce exactly the observations of the canonical model
+   (which C04 shows to be the abstract map's) for EVERY operation list; FileStorage and
+   FileStorageMemoryMapped agree on everything; MemoryStorage agrees with them on every history that does
+   not drop the storage (it has no persistence: a `reopen` is a backup + open there) *)
+Theorem C06_backends_agree :
+  forall l,
+  st_run bytes mem_raw (fst (with_data bytes mem_raw [])) l = st_run cdata ops_mem (fst init_mem) l /\
+  st_run cdata file_raw (fst (with_data cdata file_raw empty_cdata)) l = st_run cdata ops_file (fst init_file) l /\
+  st_run (cdata * bytes) mapped_raw (fst (with_data (cdata * bytes) mapped_raw (empty_cdata, []))) l
+    = st_run cdata ops_file (fst init_file) l.
+Proof. exact backends_agree. Qed.
+Print Assumptions C06_backends_agree.
+
+Theorem C06_mem_file_agree :
+  forall l, no_reopen l = true -> forall s, st_run cdata ops_mem s l = st_run cdata ops_file s l.
+Proof. exact mem_file_agree. Qed.
+Print Assumptions C06_mem_file_agree.
+
+End StorageLevel.
